@@ -268,7 +268,13 @@ def c14_2(ctx):
     # every other file the run writes (the listing) is written before the image is opened: failing to write it leaves no image
     other = [w for w in walk_no_nested(fn.node) if isinstance(w, ast.With) and w is not opens[0] and any(
         isinstance(i.context_expr, ast.Call) and unparse(i.context_expr.func) == 'open' and len(i.context_expr.args) > 1 and 'w' in unparse(i.context_expr.args[1]) for i in w.items)]
-    late = [w for w in other if g.reaches(on, g.node_of(w))]
+    def _infeasible(w):
+        # facts that contain a literal and its negation: the statement sits on a path that cannot be taken
+        units = [next(iter(c)) for c in facts_at(ctx, fn, w, res_) if len(c) == 1]
+        return any(u[:-1] == v[:-1] and u[-1] is not v[-1] and isinstance(u[-1], bool) for u in units for v in units)
+    res_ = resolver(ctx, fn, inline=False)
+    late = [w for w in other if g.reaches(on, g.node_of(w)) and not _infeasible(w)]
+    other = [w for w in other if not _infeasible(w)]
     ctx.check(bool(other) and not late, 'closed:other-files-before-image', fn.site(late[0]) if late else fn.site(opens[0]),
               'a listing file is written before the image is opened', f'{len(late)} file(s) opened for writing after the image was written')
     pp = [n for n, c in calls_to(ctx, fn, {'bespokeasm.assembler.pretty_printer.PrettyPrinterBase.pretty_print'})]
